@@ -58,3 +58,16 @@ Proof.
          (conj (Equiv.candidate_locations_tie path) (Equiv.canonical_segments_clamp_tie unq path)))).
 Qed.
 Print Assumptions C05_code_tie.
+
+(* ---- tie to the code (server/handler.py StaticFileHandler): the statements of coq/Equiv/EquivStatic.v, re-checked here against the definitions regenerated
+   from /repo's working tree (coq/Gen); see DESIGN.md 11.8 ---- *)
+From Coq Require Import List NArith ZArith Bool.
+From NV Require Import Prelude.Str Prelude.Res Prelude.Utf8 Model.Fs Model.Static Model.CertAuth.
+From NV Require Import Equiv.StaticGlue Gen.StaticGen.
+From NV Require Gen.PyGen.
+From NV Require Equiv.EquivStatic.
+Theorem C05_code_handle_tie : forall flt tok c f url,
+  norm_resp (gen_handle (model_lib flt tok) c f url) = resp_of_sout (handle c f url).
+Proof. exact EquivStatic.handle_tie. Qed.
+Print Assumptions C05_code_handle_tie.
+
